@@ -100,3 +100,10 @@ def run(ctx, proofs_ok):
         direct_oracle(ctx, wops, g)
     except FileNotFoundError:
         pass
+    if ctx.violations:
+        return
+    # real concurrency: the optimistic WATCH / GET / MULTI / SET / EXEC loop never loses an update
+    from checks import conc
+    q = ctx.tier == "quick"
+    conc.run_scenarios(ctx, [("tcp-watch-incr", 10 if q else 100, w) for w in ((0, 25) if q else (0, 10, 30, 60))],
+                       "optimistic increment loop on 5 connections")
